@@ -17,6 +17,10 @@ func addScripts(kinds []*l1kit.Kind) {
 		// device forwarding: re-send what came from pipe 2 with its header: everyone but pipe 2 (raw only; cooked ignores the header)
 		{{K: "opt", A: wq, C: 2}, {K: "addpipe"}, {K: "addpipe"}, {K: "addpipe"}, {K: "deliver", A: 2}, {K: "recv"}, {K: "send", B: 2}, {K: "send", B: 1}, {K: "send", B: 3},
 			{K: "send", B: 9}, {K: "deliver", A: 3}, {K: "deliver", A: 1}, {K: "recv"}, {K: "recv"}, {K: "recv"}},
+		// a hub that keeps its own reference of what it forwards (Clone) and sends the same message twice: the second send
+		// still names pipe 2 (the first one worked on a private copy)
+		{{K: "opt", A: wq, C: 2}, {K: "addpipe"}, {K: "addpipe"}, {K: "addpipe"}, {K: "deliver", A: 2}, {K: "recv"}, {K: "send", B: 2, S: 1}, {K: "send", S: 2},
+			{K: "send", B: 3, S: 1}, {K: "send", S: 2}, {K: "send", S: 1}, {K: "send", S: 2}},
 		// unbuffered per-pipe queues and read queue; resize with a receiver holding a message
 		{{K: "opt", A: wq, C: 0}, {K: "opt", A: rq, C: 0}, {K: "addpipe"}, {K: "addpipe"}, {K: "send"}, {K: "hold", A: 1, B: 1}, {K: "send"}, {K: "send"}, {K: "deliver", A: 1},
 			{K: "deliver", A: 1}, {K: "deliver", A: 2}, {K: "recv"}, {K: "recv"}, {K: "recv"}, {K: "deliver", A: 2}, {K: "deliver", A: 1}, {K: "opt", A: rq, C: 1},
@@ -30,6 +34,10 @@ func addScripts(kinds []*l1kit.Kind) {
 		// hop limit: TTL 2 -> hop bytes 0 and 1 pass, 2 and more are dropped
 		{{K: "opt", A: l1kit.OTtl, C: 2}, {K: "addpipe"}, {K: "addpipe"}, {K: "deliver", A: 1, B: 1}, {K: "deliver", A: 1, B: 2}, {K: "deliver", A: 1, B: 3}, {K: "deliver", A: 2, B: 4},
 			{K: "recv"}, {K: "recv"}, {K: "recv"}},
+		// a hub with the smallest TTL: what it accepts (hop byte 0) it also passes on, with hop byte 1 -- whether the next
+		// member accepts that is the next member's decision (its TTL may be larger); hop byte 1 and more are dropped here
+		{{K: "opt", A: l1kit.OTtl, C: 1}, {K: "addpipe"}, {K: "addpipe"}, {K: "addpipe"}, {K: "deliver", A: 1, B: 1}, {K: "deliver", A: 2, B: 1}, {K: "deliver", A: 3, B: 2},
+			{K: "recv"}, {K: "recv"}, {K: "recv"}, {K: "opt", A: l1kit.OTtl, C: 3}, {K: "deliver", A: 1, B: 3}, {K: "deliver", A: 1, B: 4}, {K: "recv"}, {K: "recv"}},
 		// read queue full: the receiver forwards first, then holds the message; read-queue replacement; close
 		{{K: "opt", A: rq, C: 1}, {K: "addpipe"}, {K: "addpipe"}, {K: "deliver", A: 1, B: 1}, {K: "deliver", A: 1, B: 1}, {K: "deliver", A: 1, B: 1}, {K: "deliver", A: 2, B: 1},
 			{K: "recv"}, {K: "recv"}, {K: "opt", A: rq, C: 2}, {K: "deliver", A: 2, B: 1}, {K: "deliver", A: 1, B: 1}, {K: "recv"}, {K: "recv"}, {K: "closesock"}, {K: "deliver", A: 1, B: 1}},
